@@ -38,6 +38,11 @@ pub struct ObsState {
     /// application ciphertexts of past and current epochs: (epoch, message)
     pub apps: Vec<(u64, MlsMessage)>,
     pub proposals_this_epoch: usize,
+    /// an observer built with cache_proposals(false): the application keeps the proposals it
+    /// reported (`ProposalMessageDescription::cached_proposal`) and re-inserts them with
+    /// `insert_proposal` before the next commit (the stateless-server usage)
+    pub stateless: Option<Obs>,
+    pub stored: Vec<Vec<u8>>,
 }
 
 fn client(w: &World, jitter: Option<u64>) -> ExternalClient<ExtCfg> {
@@ -87,6 +92,20 @@ pub fn spawn_some(s: &mut HState, late: bool, ctx: &mut Ctx) {
         match client(w, j).observe_group(gi.clone(), Some(g.export_tree()), w.now()) {
             Ok(o) => s.obs.observers.push(Observer { g: o, jitter: j, born: epoch, missed_proposal: s.obs.proposals_this_epoch > 0 }),
             Err(e) => ctx.violation_for("C16", format!("observe_group-failed|{}", err_name(&e)), format!("an observer cannot start from the members' GroupInfo + tree at epoch {epoch}: {e:?}")),
+        }
+    }
+    if s.obs.stateless.is_none() && s.obs.proposals_this_epoch == 0 && !late {
+        let mut b = ExternalClientBuilder::new()
+            .crypto_provider(DynProvider::new(Which::Rust, 902))
+            .identity_provider(HIdentity { party: 902 })
+            .extension_type(ExtensionType::new(CUSTOM_EXT))
+            .custom_proposal_types(Some(ProposalType::new(CUSTOM_PROP)))
+            .cache_proposals(false);
+        if let Some((sk, id)) = &w.ext_signer {
+            b = b.signer(sk.clone(), id.clone());
+        }
+        if let Ok(o) = b.build().observe_group(gi.clone(), Some(g.export_tree()), w.now()) {
+            s.obs.stateless = Some(o);
         }
     }
     // bound the population: every jitter for the two youngest birth epochs, one observer for older ones
@@ -189,6 +208,33 @@ pub fn on_commit(s: &mut HState, commit: &MlsMessage, had_cached_refs: bool, ctx
     }
     s.obs.observers = keep;
     s.obs.proposals_this_epoch = 0;
+    if let Some(mut o) = s.obs.stateless.take() {
+        let had = !s.obs.stored.is_empty();
+        for b in std::mem::take(&mut s.obs.stored) {
+            match mls_rs::group::CachedProposal::from_bytes(&b) {
+                Ok(cp) => o.insert_proposal(cp),
+                Err(e) => ctx.violation_for("C16", "cached-proposal-decode-failed", format!("{e:?}")),
+            }
+        }
+        ctx.eval();
+        match guarded(|| o.process_incoming_message_with_time(commit.clone(), now)) {
+            Ok(Ok(ExternalReceivedMessage::Commit(_))) => {
+                if had {
+                    ctx.goal("stateless-observer-follows-by-reference-commit");
+                }
+                let obs = Observer { g: o.clone(), jitter: None, born: 0, missed_proposal: false };
+                compare(&s.w, &obs, ctx);
+                s.obs.stateless = Some(o);
+            }
+            Ok(Ok(_)) => ctx.violation_for("C16", "observer-commit-wrong-kind", "commit reported as another kind (stateless observer)"),
+            Ok(Err(e)) => ctx.violation_for(
+                "C16",
+                format!("stateless-observer-rejects-accepted-commit|{}", err_name(&e)),
+                format!("an observer that keeps proposals outside (cache_proposals(false), cached_proposal() / insert_proposal) rejects a commit the members accepted: {e:?}"),
+            ),
+            Err((loc, msg)) => ctx.violation_for("C16", format!("observer-panic|{loc}"), msg),
+        }
+    }
     // snapshot -> load for every other observer
     for (i, o) in s.obs.observers.iter_mut().enumerate() {
         if i % 2 == 0 {
@@ -261,6 +307,65 @@ pub fn ciphertext_window(s: &HState, ctx: &mut Ctx) {
     }
 }
 
+fn feed_stateless(s: &mut HState, proposal: &MlsMessage, ctx: &mut Ctx) {
+    let now = time(s.w.clock);
+    if let Some(o) = s.obs.stateless.as_mut() {
+        ctx.eval();
+        match guarded(|| o.process_incoming_message_with_time(proposal.clone(), now)) {
+            Ok(Ok(ExternalReceivedMessage::Proposal(d))) => {
+                match d.cached_proposal().to_bytes() {
+                    Ok(b) => s.obs.stored.push(b),
+                    Err(e) => ctx.violation_for("C16", "cached-proposal-encode-failed", format!("{e:?}")),
+                }
+                ctx.goal("stateless-observer-stores-proposal");
+            }
+            Ok(Ok(_)) => ctx.violation_for("C16", "observer-proposal-wrong-kind", "proposal reported as another kind (stateless observer)"),
+            Ok(Err(e)) => ctx.violation_for("C16", format!("stateless-observer-rejects-accepted-proposal|{}", err_name(&e)), format!("{e:?}")),
+            Err((loc, msg)) => ctx.violation_for("C16", format!("observer-panic|{loc}"), msg),
+        }
+    }
+}
+
+/// An outsider asks to be added with a new-member proposal (`Client::external_add_proposal`);
+/// members and observers must accept it, and the commit that references it must be followed
+/// by everybody, including the observer that keeps its proposals outside.
+pub fn new_member_proposal(s: &mut HState, ctx: &mut Ctx) -> Option<MlsMessage> {
+    let o = *s.w.outsiders().first()?;
+    let members = s.w.members();
+    let gi = s.w.g(*members.first()?).group_info_message(true).ok()?;
+    let now = s.w.now();
+    let msg = match s.w.parties[o].client.external_add_proposal(&gi, None, vec![], Default::default(), Default::default(), now) {
+        Ok(m) => m,
+        Err(e) => {
+            ctx.outcome(format!("new-member-proposal-err:{}", err_name(&e)));
+            return None;
+        }
+    };
+    let mut kp = None;
+    for p in members {
+        ctx.eval();
+        match s.w.process(p, &msg) {
+            Ok(mls_rs::group::ReceivedMessage::Proposal(d)) => {
+                if let mls_rs::group::proposal::Proposal::Add(a) = &d.proposal {
+                    let mut b = vec![0u8, 1, 0, 5];
+                    b.extend(a.key_package().mls_encode_to_vec().unwrap_or_default());
+                    kp = MlsMessage::from_bytes(&b).ok();
+                }
+                ctx.outcome("member:accepts-new-member-proposal");
+            }
+            Ok(_) => ctx.violation_for("C16", "proposal-reported-as-other-kind", "a new-member proposal was reported as another message kind"),
+            Err(e) => {
+                ctx.outcome(format!("member-rejects-new-member-proposal:{}", err_name(&e)));
+                return None;
+            }
+        }
+    }
+    s.pending_adds.push((o, kp?));
+    ctx.goal("new-member-proposal");
+    on_proposal(s, &msg, ctx);
+    Some(msg)
+}
+
 /// A proposal the members accepted is shown to every observer.
 pub fn on_proposal(s: &mut HState, proposal: &MlsMessage, ctx: &mut Ctx) {
     let now = time(s.w.clock);
@@ -274,6 +379,7 @@ pub fn on_proposal(s: &mut HState, proposal: &MlsMessage, ctx: &mut Ctx) {
             Err((loc, msg)) => ctx.violation_for("C16", format!("observer-panic|{loc}"), msg),
         }
     }
+    feed_stateless(s, proposal, ctx);
     // every third observer is stored and restored while it holds the cached proposal: the
     // commit that references it must still be accepted by the restored instance (on_commit)
     for (i, o) in s.obs.observers.iter_mut().enumerate() {
@@ -338,5 +444,6 @@ pub fn external_proposal(s: &mut HState, remove: bool, ctx: &mut Ctx) -> Option<
             ctx.violation_for("C16", format!("observer-rejects-external-proposal|{}", err_name(&e)), format!("{e:?}"));
         }
     }
+    feed_stateless(s, &msg, ctx);
     Some(msg)
 }
